@@ -1194,6 +1194,13 @@ func (s *Sym) returnTerm() *Term {
 		if len(rp.Vals) == 1 && isCacheReturn(rp) {
 			continue
 		}
+		// cache fill: `if r.f == nil { r.f = E }; return r.f` - the value on a
+		// cache miss is E
+		if len(rp.Vals) == 1 {
+			if e := s.cacheFillValue(rp.Vals[0]); e != nil {
+				t = e
+			}
+		}
 		if res == nil {
 			res = t
 		} else if res.String() != t.String() {
@@ -2308,3 +2315,44 @@ func isBuilderPtr(t types.Type) bool {
 // termAnchors: unexported functions outside the forks that rules name as
 // steps (they stay opaque calls in terms however small they become).
 var termAnchors = map[string]bool{"unpadOriginName": true}
+
+// cacheFillValue: v is a load of field f of some base; the function stores to
+// that field exactly once, in a block guarded by `f == nil` (of the same base),
+// and that store reaches the load: the value on the miss path.
+func (s *Sym) cacheFillValue(v ssa.Value) *Term {
+	u, ok := v.(*ssa.UnOp)
+	if !ok || u.Op != token.MUL {
+		return nil
+	}
+	fa, ok := u.X.(*ssa.FieldAddr)
+	if !ok {
+		return nil
+	}
+	var stores []*ssa.Store
+	for _, b := range fa.Parent().Blocks {
+		for _, in := range b.Instrs {
+			if st, ok := in.(*ssa.Store); ok {
+				if ofa, ok := st.Addr.(*ssa.FieldAddr); ok && ofa.Field == fa.Field && sameBase(ofa.X, fa.X) {
+					stores = append(stores, st)
+				}
+			}
+		}
+	}
+	if len(stores) != 1 || !reaches(stores[0], u) || dominates(stores[0], u) {
+		return nil
+	}
+	guarded := false
+	for _, a := range s.ff.At(stores[0].Block()) {
+		if a.Kind == IsNil && a.Pol {
+			if l, ok := a.V.(*ssa.UnOp); ok && l.Op == token.MUL {
+				if fb, ok := l.X.(*ssa.FieldAddr); ok && fb.Field == fa.Field && sameBase(fb.X, fa.X) {
+					guarded = true
+				}
+			}
+		}
+	}
+	if !guarded {
+		return nil
+	}
+	return s.objAt(stores[0].Val, stores[0])
+}
